@@ -25,7 +25,7 @@ def load_layouts(layouts=None):
     _LAYOUTS = layouts
   elif _LAYOUTS is None:
     from engine import tlc
-    r = tlc.run("packet", "PktWireTables", "Tables.cfg", workers=1, coverage=False, tag="C14")
+    r = tlc.run("packet", "PktWireTables", "PktWire_Tables.cfg", workers=1, coverage=False, tag="C14")
     t = r.tagged("L")
     if not t:
       raise tlc.TLCError("PktWireTables printed no layout tables")
